@@ -722,6 +722,14 @@ int main(int argc, char **argv)
   uint64_t tick = 0;
   while (!worklist.empty() && ST.paths < OPT.max_paths && VIOLS.size() < OPT.max_violations)
   {
+    if (OPT.seed != 0 && worklist.size() > 1)
+    {
+      // seeded exploration order (verdicts do not depend on it; partial runs cover different paths)
+      static uint64_t rng = 0; if (!rng) rng = OPT.seed * 6364136223846793005ULL + 1442695040888963407ULL;
+      rng = rng * 6364136223846793005ULL + 1442695040888963407ULL;
+      size_t k = (rng >> 33) % worklist.size();
+      std::swap(worklist[k], worklist.back());
+    }
     State s = std::move(worklist.back()); worklist.pop_back();
     while (step(s))
     {
